@@ -39,19 +39,44 @@ Definition same_state (s : state) (d : dump) : bool :=
   && (length (s_ghost s) =? length (o_ghost d))%nat
   && forallb (fun r => opt_eqb N.eqb (ghost_lock (s_ghost s) (fst r)) (Some (snd r))) (o_ghost d).
 
-(* one call: the result class the implementation returned and the dump taken
-   right after it; Some final state when every call agrees *)
-Fixpoint replay_st (s : state) (os : list op) (obs : list (res unit * dump)) : option state :=
+(* what one call changed, as the harness saw it by comparing the dumps taken
+   before and after it: records written (new value), bodies removed, and the
+   sizes of the six families after the call *)
+Record delta := {
+  x_utxo : list (slot * N);
+  x_dep : list (dep * N);
+  x_mint : list (N * (N * Z));
+  x_body : list N;
+  x_body_del : list N;
+  x_final : list N;
+  x_ghost : list (N * N);
+  x_sizes : list N
+}.
+
+Definition sizes_of (s : state) : list N :=
+  map N.of_nat [length (s_utxo s); length (s_dep s); length (s_mint s);
+                length (s_body s); length (s_final s); length (s_ghost s)].
+
+Definition delta_ok (s : state) (d : delta) : bool :=
+  forallb (fun r => opt_eqb N.eqb (utxo_lock s (fst r)) (Some (snd r))) (x_utxo d)
+  && forallb (fun r => opt_eqb N.eqb (dep_lock s (fst r)) (Some (snd r))) (x_dep d)
+  && forallb (fun r => opt_eqb mint_val_eqb (mint_lock s (fst r)) (Some (snd r))) (x_mint d)
+  && forallb (has_body s) (x_body d)
+  && forallb (fun t => negb (has_body s t)) (x_body_del d)
+  && forallb (is_final s) (x_final d)
+  && forallb (fun r => opt_eqb N.eqb (ghost_lock (s_ghost s) (fst r)) (Some (snd r))) (x_ghost d)
+  && bytes_eqb (sizes_of s) (x_sizes d).
+
+(* one call: the result class the implementation returned and what it changed;
+   Some final state when every call agrees *)
+Fixpoint replay_st (s : state) (os : list op) (obs : list (res unit * delta)) : option state :=
   match os, obs with
   | [], [] => Some s
   | o :: os', (r, d) :: obs' =>
       let (s', r') := step s o in
-      if res_class_eqb r r' && same_state s' d then replay_st s' os' obs' else None
+      if res_class_eqb r r' && delta_ok s' d then replay_st s' os' obs' else None
   | _, _ => None
   end.
-
-Definition replay (s : state) (os : list op) (obs : list (res unit * dump)) : bool :=
-  match replay_st s os obs with Some _ => true | None => false end.
 
 (* result classes only (the calls of a concurrent batch, in the sequential
    order the harness found) *)
@@ -64,24 +89,28 @@ Fixpoint replay_classes (s : state) (os : list op) (rs : list (res unit)) : opti
   | _, _ => None
   end.
 
-(* hashes and keys of a history are listed once and referred to by position *)
-Definition lookup (tbl : list N) (i : nat) : N := nth i tbl 0.
+(* 32-byte values (hashes, keys, chain ids) reach the cases renamed: the
+   harness numbers the distinct values of a history 1, 2, 3, ... (the model uses
+   them only through equality tests), keeps the zero hash as 0 and writes the
+   k-th hard-coded exception hash as [exc k]. *)
+Definition exc (k : N) : N := nth (N.to_nat k) ghost_exceptions 0.
 
-Definition check_hist (tbl : list N) (ops : (nat -> N) -> list op)
-                      (obs : (nat -> N) -> list (res unit * dump)) : bool :=
-  replay init (ops (lookup tbl)) (obs (lookup tbl)).
+(* sequential history: per-call observations, then the full dump at the end *)
+Definition check_hist (ops : list op) (obs : list (res unit * delta)) (final : dump) : bool :=
+  match replay_st init ops obs with
+  | Some s => same_state s final
+  | None => false
+  end.
 
 (* a sequential prefix, then a batch issued from several goroutines: the batch
    is given in a sequential order under which the model must return the
    observed classes and end in the observed final dump *)
-Definition check_conc (tbl : list N) (pre : (nat -> N) -> list op)
-                      (obs : (nat -> N) -> list (res unit * dump))
-                      (batch : (nat -> N) -> list op) (rs : list (res unit))
-                      (final : (nat -> N) -> dump) : bool :=
-  match replay_st init (pre (lookup tbl)) (obs (lookup tbl)) with
+Definition check_conc (pre : list op) (obs : list (res unit * delta))
+                      (batch : list op) (rs : list (res unit)) (final : dump) : bool :=
+  match replay_st init pre obs with
   | Some s =>
-      match replay_classes s (batch (lookup tbl)) rs with
-      | Some s' => same_state s' (final (lookup tbl))
+      match replay_classes s batch rs with
+      | Some s' => same_state s' final
       | None => false
       end
   | None => false
